@@ -2,8 +2,8 @@
 
 MAX_PAR = 14
 TIER_CAPS = {
-    "quick": {"cap_s": 600, "mem_gb": 10},
-    "thorough": {"cap_s": 3600, "mem_gb": 20},
+    "quick": {"cap_s": 600, "mem_gb": 20},
+    "thorough": {"cap_s": 3600, "mem_gb": 30},
 }
 
 BASE_STUBS = [
@@ -60,15 +60,16 @@ def c11():
         ("merkle_proof_from_hex_ascii_32", "MerkleProof::from_hex on any 32 ASCII characters: no panic, bounded allocation", "32 symbolic ASCII bytes", 36),
         ("util_from_hex_utf8_4", "util::from_hex on any valid UTF-8 string of 4 bytes: no panic", "4 symbolic bytes, assumed valid UTF-8", 8),
     ]:
-        obs.append(ob("c11::" + h, "qt", u, claim, b))
+        obs.append(ob("c11::" + h, "qt", u, claim, b,
+                      allow_unsat=["some input is refused"] if h == "segment_identifier_read_9" else []))
     for h, b in [
-        ("segment_validate_h0_s1", "height 0, mmr_size 1, idx<=5, 0 hashes/1 leaf/0 proof hashes"),
-        ("segment_validate_h0_s4", "height 0, mmr_size 4, idx<=5, 0/1/2"),
-        ("segment_validate_h1_s4", "height 1, mmr_size 4, idx<=5, 0/2/1"),
-        ("segment_validate_h1_s4_empty", "height 1, mmr_size 4, idx<=5, 0/0/0"),
-        ("segment_validate_h1_s7", "height 1, mmr_size 7, idx<=5, 1/2/1"),
-        ("segment_validate_h2_s10", "height 2, mmr_size 10, idx<=5, 0/4/1"),
-        ("segment_validate_h2_s11", "height 2, mmr_size 11, idx<=5, 1/3/1"),
+        ("segment_validate_h0_s1_empty", "height 0, mmr_size 1, idx 0..=4, 0 hashes/0 leaves/0 proof hashes"),
+        ("segment_validate_h0_s4", "height 0, mmr_size 4, idx 0..=4, 0/1/2"),
+        ("segment_validate_h1_s4_empty", "height 1, mmr_size 4, idx 0..=4, 0/0/0"),
+        ("segment_validate_h1_s4", "height 1, mmr_size 4, idx 0..=4, 0/2/1"),
+        ("segment_validate_h1_s7", "height 1, mmr_size 7, idx 0..=4, 1/2/1"),
+        ("segment_validate_h2_s10_empty", "height 2, mmr_size 10, idx 0..=4, 0/0/0"),
+        ("segment_validate_h2_s11", "height 2, mmr_size 11, idx 0..=4, 1/3/1"),
     ]:
         obs.append(ob("c11::" + h, "qt", 20,
                       "Segment<OutputIdentifier>::validate on a decoded-shape segment with arbitrary contents never panics",
@@ -85,7 +86,56 @@ def c11():
     }
 
 
+def c04():
+    obs = []
+    CTN = {0: "AutomatedTesting", 1: "UserTesting", 2: "Testnet", 3: "Mainnet"}
+    # DMA retarget, full window
+    for ct, tiers in [(3, "qt"), (0, "t"), (2, "t"), (1, "t")]:
+        obs.append(ob("c04::dma_total_floor", tiers, 64,
+                      "next_dma_difficulty is total (no overflow/underflow/div-by-zero/index panic), >= MIN_DMA_DIFFICULTY, scaling >= MIN_AR_SCALE",
+                      "chain %s; full 61-header window: every timestamp (strictly decreasing, gaps < 2^20 s), difficulty in [1,2^48), scaling < 2^24, secondary flag symbolic; height < 2^40" % CTN[ct],
+                      env={"VH_CT": ct, "VH_WIN": 61}, tag="_ct%d_w61" % ct, est=450, cap_s=1500 if "q" in tiers else 3600, mem_est_gb=14))
+    # short windows (just after genesis): padding path
+    for win, tiers in [(1, "qt"), (2, "t"), (7, "t"), (30, "t"), (60, "t")]:
+        obs.append(ob("c04::dma_total_floor", tiers, 64,
+                      "same, window shorter than required (pre-genesis padding never underflows)",
+                      "chain Mainnet; %d real headers" % win,
+                      env={"VH_CT": 3, "VH_WIN": win}, tag="_ct3_w%d" % win, est=300, cap_s=1500 if "q" in tiers else 3600, mem_est_gb=12))
+    obs.append(ob("c04::dma_deterministic", "qt", 64, "two evaluations of next_dma_difficulty on one window agree",
+                  "chain Mainnet; 2 real headers + padding", env={"VH_CT": 3, "VH_WIN": 2}, est=300, cap_s=1500, mem_est_gb=14))
+    for ct in (3, 0, 2, 1):
+        t = "qt" if ct in (3, 0) else "t"
+        obs.append(ob("c04::wtema_total_floor", t, 4, "next_wtema_difficulty total, >= min_wtema, scaling 0",
+                      "chain %s; gap in [1,2^30), difficulty in [1,2^50), all other fields symbolic" % CTN[ct],
+                      env={"VH_CT": ct}, tag="_ct%d" % ct, est=10))
+        obs.append(ob("c04::next_difficulty_dispatch", t, 64, "next_difficulty selects DMA before header version 5 and WTEMA from it on",
+                      "chain %s; two-header cursor, height < 2^40" % CTN[ct], env={"VH_CT": ct}, tag="_ct%d" % ct, est=60))
+    obs.append(ob("c04::wtema_direction", "t", 4, "slower-than-target block never raises difficulty, faster never lowers it",
+                  "Mainnet; gap < 2^16, difficulty < 2^32 (64-bit symbolic division)", env={"VH_CT": 3}, est=1200, cap_s=3600))
+    for f in (2, 3, 13):
+        obs.append(ob("c04::damp_clamp_f%d" % f, "q", 4, "damp between actual and goal and moves at most 1/f; clamp within [goal/f, goal*f], identity inside",
+                      "factor %d; actual, goal < 2^24" % f, est=120, env={"VH_DCW": 24}))
+        obs.append(ob("c04::damp_clamp_f%d" % f, "t", 4, "damp between actual and goal and moves at most 1/f; clamp within [goal/f, goal*f], identity inside",
+                      "factor %d; actual, goal < 2^40" % f, est=1200, env={"VH_DCW": 40}))
+    obs.append(ob("c04::header_version_u16_wrap", "qt", 4, "WITNESS of the recorded finding: header_version leaves 1..=5 once the era counter wraps in u16",
+                  "every u64 height, all chain types", est=30, expect_fail=True))
+    obs.append(ob("c04::header_version_schedule", "qt", 4, "header_version monotone, in 1..=5, equals the hard-fork schedule; valid_header_version accepts exactly it",
+                  "heights < 2^32 (Mainnet/Testnet) / < 196602 (testing chains), all four chain types, every candidate version", est=30))
+    obs.append(ob("c04::graph_weight_no_overflow", "qt", 4, "graph_weight total for edge_bits in [base,63], C31 phase-out",
+                  "every height, all chain types", est=30))
+    obs.append(ob("c04::secondary_pow_ratio_schedule", "qt", 4, "secondary ratio <= 90, monotone, zero after two years", "every height", est=30))
+    return {
+        "obligations": obs,
+        "stubs": BASE_STUBS,
+        "explanation": "Bounded proof over consensus::{next_difficulty,next_dma_difficulty,next_wtema_difficulty,secondary_pow_scaling,damp,clamp,header_version,graph_weight,secondary_pow_ratio} and global::difficulty_data_to_vector with a fully symbolic difficulty window.",
+        "bounds": "window contents symbolic within the ranges listed per obligation; window length concrete per query",
+        "outside": "pipe::validate_header sequencing and DifficultyIter (LMDB); PoW verification (C05); header MMR root; exact-quotient bound of the retarget (needs symbolic 64-bit division by a symbolic divisor)",
+        "assumptions": ["window scalings < 2^24: above ~2^26 the u32 cast in secondary_pow_scaling truncates (recorded observation, consensus code)"],
+    }
+
+
 PLAN = {
+    "C04": c04(),
     "C07": c07(),
     "C11": c11(),
 }
